@@ -137,6 +137,15 @@ impl Driver {
         self.next_id
     }
 
+    /// Driver that continues a history replayed from a recorded prefix.
+    pub fn continuation(sc: &Scenario, salt: u64) -> Driver {
+        let mut d = Driver::new(sc);
+        d.rng = Rng::for_run(sc.seed ^ salt, &format!("continuation-{}", sc.property), sc.run);
+        d.next_id = 500_000;
+        d.epochs_done = sc.epochs; // no further epoch changes before quiescence
+        d
+    }
+
     pub fn next(&mut self, w: &World) -> Event {
         self.since_epoch += 1;
         let f = &w.sc.faults;
@@ -145,7 +154,7 @@ impl Driver {
         let unsent: Vec<usize> = self.registering(w, w.epoch).into_iter().filter(|p| !w.registered_sent.contains_key(&(*p, rec))).collect();
         let om = w.current_open_message();
         let can_sign: Vec<usize> = match &om {
-            Some(om) => (0..w.parties.len()).filter(|p| !w.signed.contains_key(&(*p, om.entity.clone()))).collect(),
+            Some(om) => (0..w.parties.len()).filter(|p| w.can_sign(*p, &om.entity)).collect(),
             None => vec![],
         };
         let inflight: Vec<u32> = w.inflight.keys().copied().collect();
@@ -276,33 +285,101 @@ impl Driver {
         }
     }
 
-    /// Quiescence phase: no more faults; everything outstanding is delivered, views are synced,
-    /// every registered signer signs whatever is open, the aggregator ticks.
-    pub fn quiesce_next(&mut self, w: &World, phase_step: usize) -> Event {
+}
+
+/// Quiescence script (bounded liveness): faults have stopped. Everything outstanding is delivered,
+/// views are synced, every party registers and signs whatever is open, the aggregator ticks and its
+/// background tasks run; then every beacon dimension advances (immutable +1, epoch +1) twice more,
+/// so that the final epoch's signers are exactly the parties registered during quiescence.
+pub struct Quiescer {
+    phase: u8,
+    ticks: usize,
+    limit: usize,
+    next_id: u32,
+    sub: u8,
+    done: bool,
+    /// (what, party) attempted since the last tick: an attempt that is not enabled changes
+    /// nothing and must not be repeated forever
+    tried: std::collections::BTreeSet<(u8, usize)>,
+}
+
+impl Quiescer {
+    pub fn new(sc: &Scenario) -> Quiescer {
+        Quiescer { phase: 0, ticks: 0, limit: 4 * (sc.entity_types.len() + 3), next_id: 1_000_000, sub: 0, done: false, tried: Default::default() }
+    }
+
+    fn id(&mut self) -> u32 {
+        self.next_id += 1;
+        self.next_id
+    }
+
+    pub fn next(&mut self, w: &World) -> Option<Event> {
+        if self.done {
+            return None;
+        }
+        if !w.agg.is_up() {
+            return Some(Event::Restart);
+        }
         if w.agg_view.lock().unwrap().down {
-            return Event::ChainDown { down: false };
+            return Some(Event::ChainDown { down: false });
         }
         if !w.view_is_synced() {
-            return Event::SyncView;
+            return Some(Event::SyncView);
         }
         if let Some(id) = w.inflight.keys().next().copied() {
-            // stale messages are delivered once, then gone
-            return Event::Deliver { id, keep: false, damage: None };
+            return Some(Event::Deliver { id, keep: false, damage: None });
         }
+        // the registration round must be open (it is re-opened by the state machine after a restart)
         let rec = w.epoch + 1;
-        if let Some(p) = (0..w.parties.len()).find(|p| !w.registered_sent.contains_key(&(*p, rec))) {
-            let id = self.id();
-            return Event::Register { id, party: p, new_key: false };
+        if self.ticks >= 2 {
+            let unacked = (0..w.parties.len()).find(|p| {
+                !self.tried.contains(&(0, *p))
+                    && !w.deliveries.iter().any(|d| matches!(&d.msg.kind, MsgKind::Registration { party, recording_epoch, .. } if party == p && *recording_epoch == rec) && d.status == 201)
+                    && w.quiescence_register_attempts.get(&(*p, rec)).copied().unwrap_or(0) < 3
+            });
+            if let Some(p) = unacked {
+                self.tried.insert((0, p));
+                let id = self.id();
+                return Some(Event::Register { id, party: p, new_key: false });
+            }
+            if let Some(om) = w.current_open_message()
+                && let Some(p) = (0..w.parties.len()).find(|p| !self.tried.contains(&(1, *p)) && w.can_sign(*p, &om.entity))
+            {
+                self.tried.insert((1, p));
+                let id = self.id();
+                return Some(Event::Sign { id, party: p, early: false });
+            }
         }
-        if let Some(om) = w.current_open_message()
-            && let Some(p) = (0..w.parties.len()).find(|p| !w.signed.contains_key(&(*p, om.entity.clone())))
-        {
-            let id = self.id();
-            return Event::Sign { id, party: p, early: false };
+        if self.ticks < self.limit {
+            self.ticks += 1;
+            self.tried.clear();
+            return Some(if self.ticks % 3 == 0 { Event::Background { polls: 4 } } else { Event::Tick });
         }
-        if phase_step % 3 == 2 {
-            return Event::Background { polls: 6 };
+        // the chain only moves on when the current epoch got its first certificate: an epoch
+        // without any certificate would (legitimately) block the aggregator on an epoch gap
+        let epoch_certified = w
+            .db()
+            .map(|db| db.certificates().iter().any(|c| !c.is_genesis && c.epoch == w.epoch))
+            .unwrap_or(false);
+        if self.phase < 2 && epoch_certified {
+            match self.sub {
+                0 => {
+                    self.sub = 1;
+                    return Some(Event::Background { polls: 4 });
+                }
+                1 => {
+                    self.sub = 2;
+                    return Some(Event::Immutable);
+                }
+                _ => {
+                    self.sub = 0;
+                    self.phase += 1;
+                    self.ticks = 0;
+                    return Some(Event::Epoch { by: 1 });
+                }
+            }
         }
-        Event::Tick
+        self.done = true;
+        Some(Event::CheckLiveness)
     }
 }
